@@ -204,3 +204,10 @@ CHECKS["C36"]["note"] += " Run-time half: rv-flow executes every generated manif
 reg("C39", "rv-account", "exploration", "decision-table oracle (exhaustive finite table + random histories) vs observed deposits",
     "The finite table of the property (default rule x preference history x vault history x authorized-depositor list x named badge x proof presence x single/batch composition incl. all 341 bucket sequences of length 0-4 x four method variants; 48112 cases, complete in the thorough tier, sampled in quick) and random histories on fresh and aged accounts are executed as third-party guarded deposits; the predicted outcome class (all deposited / all refunded / call failed) is compared with the call's own return value, exact pre/post balances and id sets of target, sender and a bystander account, refunded bucket contents, and the set of vaults written.",
     _LEDGER_NOTE + " 'Already holds' = has a vault (a zero-balance vault counts); latest protocol only.", "DESIGN.md §4 C39")
+
+# C11: the dedicated schema-driven fuzzer is the registered check (the panic/trap monitor stays armed in
+# every other ledger check as well).
+reg("C11", "rv-fuzz", "exploration", "panic / native-trap monitor under schema-driven fuzzing of every native function",
+    "All 246 functions and methods of the 29 native blueprints are enumerated from the genesis database with their input schemas, receivers and auth templates; each call is one transaction whose arguments come from a schema-walking generator (extreme numbers, empty/huge collections, every enum variant + unknown discriminators, right- and wrong-kind real addresses, real/foreign/empty/reused buckets and proofs, existing/burned/wrong-type ids), from verbatim or one-leaf-hostile arguments of successful calls, and from byte mutants that still decode; receivers include frozen vaults, dried pools, unregistered/locked validators, controllers in recovery, locked metadata/owner roles; bucket/proof/vault/auth-zone methods are reached through a proxy component. Every execution runs under catch_unwind and the receipt is scanned for native traps / system panics (the panic hook records panics swallowed by the native VM).",
+    _LEDGER_NOTE + " Functions no user transaction can call are additionally exercised with auth disabled as observations only. Notarized/subintent transactions and non-genesis costing are covered by other checks (C07, C06).", "DESIGN.md §4 C11",
+    watchdog={"quick": 1800, "thorough": 4 * 3600})
